@@ -542,6 +542,7 @@ impl Node {
                         index: false,
                         old_local_id: node._local_id,
                         old_room_id: node.room_id,
+                        old_entity: Some(node._entity),
                         old_mdate: node.mdate,
                         old_verifying_key: Some(node.verifying_key),
                         old_fts_str: old_fts,
@@ -561,6 +562,7 @@ impl Node {
                 index: false,
                 old_local_id: None,
                 old_room_id: None,
+                old_entity: None,
                 old_mdate: 0,
                 old_verifying_key: None,
                 old_fts_str: None,
@@ -744,6 +746,7 @@ pub struct NodeToInsert {
     pub entity_name: Option<String>,
     pub index: bool,
     pub old_room_id: Option<Uid>,
+    pub old_entity: Option<String>,
     pub old_mdate: i64,
     pub old_verifying_key: Option<Vec<u8>>,
     pub old_local_id: Option<i64>,
